@@ -114,6 +114,9 @@ pub enum SendFraming {
     DefaultChunked,
     /// caller supplied `transfer-encoding: chunked`
     ExplicitChunked,
+    /// caller supplied a mixed-case `Transfer-Encoding: Chunked`, optionally with a
+    /// Content-Length next to it (chunked wins)
+    ExplicitChunkedVariant(u8),
     /// caller supplied `content-length: n`
     Sized(u64),
 }
@@ -131,6 +134,21 @@ pub fn reach_sender_ex(ctx: &mut Ctx, framing: SendFraming, use_call: bool, meth
     match framing {
         SendFraming::DefaultChunked => {}
         SendFraming::ExplicitChunked => headers.push(("transfer-encoding".into(), b"chunked".to_vec())),
+        SendFraming::ExplicitChunkedVariant(v) => {
+            let spelling: &[u8] = match v % 3 {
+                0 => b"Chunked",
+                1 => b"CHUNKED",
+                _ => b"chunked",
+            };
+            if v / 3 % 2 == 1 {
+                headers.push(("content-length".into(), b"7".to_vec()));
+            }
+            headers.push(("Transfer-Encoding".into(), spelling.to_vec()));
+            if v / 6 % 2 == 1 {
+                headers.push(("Content-Length".into(), b"7".to_vec()));
+                headers.retain(|(n, _)| n != "content-length");
+            }
+        }
         SendFraming::Sized(n) => headers.push(("content-length".into(), n.to_string().into_bytes())),
     }
     let via_added = via_added && !use_call;
